@@ -55,6 +55,7 @@ type Result struct {
 	Checks     int             `json:"checks"`
 	Crash      string          `json:"crash,omitempty"`
 	Cover      []string        `json:"cover"`
+	Free       bool            `json:"-"`
 }
 
 type replayFile struct {
@@ -63,6 +64,7 @@ type replayFile struct {
 	Tier      string   `json:"tier"`
 	Finding   string   `json:"finding,omitempty"`
 	Features  string   `json:"features,omitempty"`
+	Free      bool     `json:"free_running,omitempty"`
 	Signature string   `json:"signature"`
 	Detail    string   `json:"detail,omitempty"`
 	Sample    any      `json:"workload,omitempty"`
@@ -79,6 +81,9 @@ type knownFinding struct {
 	// Features switch on the generator features that trigger the finding (they are off in the
 	// sampled workload); used by the sampled confirmation run
 	Features string `json:"trigger_features"`
+	// Free: the finding is a data race seen only by the free-running race-detector phase
+	// (thorough tier of the properties that have one); it cannot be confirmed by a tape replay
+	Free bool `json:"free_running"`
 }
 
 type tierCfg struct {
@@ -115,6 +120,11 @@ func envGo() []string {
 }
 
 var cgo = "0"
+
+// race detector behaviour of child processes: replays stop at the first report; the free-running
+// phase lets the process go on (each distinct race is reported once per process) and the parent
+// attributes the reports to runs through the SIMRUN markers on stderr
+var gorace = "halt_on_error=1 exitcode=66"
 
 func fatal2(format string, args ...any) {
 	fmt.Fprintf(os.Stderr, "simcheck: "+format+"\n", args...)
@@ -169,7 +179,7 @@ type childOut struct {
 
 var (
 	rePanic = regexp.MustCompile(`(?m)^(panic: .*|fatal error: .*)$`)
-	reFrame = regexp.MustCompile(`(?m)^(github\.com/buildbuildio/pebbles[^\s(]*)\(`)
+	reFrame = regexp.MustCompile(`(?m)^\s*(github\.com/buildbuildio/pebbles\S*)`)
 	reNum   = regexp.MustCompile(`0x[0-9a-f]+|\b\d+\b`)
 	reRace  = regexp.MustCompile(`WARNING: DATA RACE`)
 )
@@ -178,14 +188,21 @@ var (
 // crashing goroutine.
 func crashSignature(prop, stderr string) (string, string) {
 	if reRace.MatchString(stderr) {
-		// first two pebbles frames in the race report
-		fr := reFrame.FindAllStringSubmatch(stderr, 4)
-		var fs []string
-		for _, f := range fr {
-			fs = append(fs, shortFrame(f[1]))
+		// the top pebbles frame of each of the two conflicting accesses (the report lists the
+		// two access stacks first, then where the goroutines were created)
+		report := stderr[strings.Index(stderr, "WARNING: DATA RACE"):]
+		if i := strings.Index(report, "\nGoroutine "); i > 0 {
+			report = report[:i]
 		}
+		var fs []string
+		for _, part := range strings.Split(report, "\n\n") {
+			if f := reFrame.FindStringSubmatch(part); f != nil {
+				fs = append(fs, shortFrame(f[1]))
+			}
+		}
+		sort.Strings(fs)
 		fs = uniq(fs)
-		return prop + "/race:" + strings.Join(fs, "+"), firstLines(stderr, 60)
+		return prop + "/race:" + strings.Join(fs, "+"), firstLines(stderr[strings.Index(stderr, "WARNING: DATA RACE"):], 70)
 	}
 	m := rePanic.FindString(stderr)
 	if m == "" {
@@ -222,6 +239,13 @@ func uniq(in []string) []string {
 }
 
 func shortFrame(f string) string {
+	// cut the argument list: the last "(" that does not open a receiver like (*T)
+	for i := len(f) - 1; i >= 0; i-- {
+		if f[i] == '(' && (i+1 >= len(f) || f[i+1] != '*') {
+			f = f[:i]
+			break
+		}
+	}
 	f = strings.TrimPrefix(f, "github.com/buildbuildio/pebbles")
 	f = strings.TrimPrefix(f, "/")
 	f = strings.TrimPrefix(f, ".")
@@ -263,7 +287,7 @@ func runChild(bin string, args []string, timeout time.Duration) childOut {
 	full = append(full, "-sim.out="+outPath)
 	cmd := exec.Command(bin, full...)
 	cmd.Dir = filepath.Join(root, "sim")
-	cmd.Env = append(os.Environ(), "GORACE=halt_on_error=1 exitcode=66")
+	cmd.Env = append(os.Environ(), "GORACE="+gorace)
 	var errb bytes.Buffer
 	cmd.Stderr = &errb
 	cmd.Stdout = &errb
@@ -484,7 +508,18 @@ func main() {
 		}
 		chunks = append(chunks, chunk{first + uint64(off), c})
 	}
-	deadline := start.Add(tc.Budget)
+	// tiers with Race run two phases: the deterministic search with the plain binary, then a
+	// free-running phase (goroutine yields do not park) with the race-detector binary: under the
+	// scheduler every access is ordered through the driver's park/release and the detector sees
+	// nothing. The free phase is not replayable; a race report is re-run several times instead.
+	raceBin := ""
+	detBudget := tc.Budget
+	if tc.Race {
+		raceBin = bin
+		bin = build(false)
+		detBudget = tc.Budget * 6 / 10
+	}
+	deadline := start.Add(detBudget)
 	var wg sync.WaitGroup
 	ch := make(chan chunk)
 	infra := []string{}
@@ -517,6 +552,14 @@ func main() {
 					switch co.crash.Verdict {
 					case "crash":
 						sig, detail := crashSignature(*prop, co.stderr)
+						if strings.HasSuffix(sig, "/race:") {
+							// a race report without any pebbles frame is the harness's own
+							imu.Lock()
+							infra = append(infra, "data race inside the harness: "+firstLines(detail, 25))
+							imu.Unlock()
+							count = 0
+							break
+						}
 						r := *co.crash
 						r.Prop = *prop
 						r.Verdict = "violation"
@@ -548,6 +591,10 @@ func main() {
 	close(ch)
 	wg.Wait()
 	a.lastSeed = first + uint64(tc.Runs) - 1
+	freeRuns := 0
+	if raceBin != "" {
+		freeRuns = freePhase(raceBin, *prop, *tier, *features, first+uint64(tc.Runs), start.Add(tc.Budget), *workers, a)
+	}
 
 	exit := 0
 	if len(infra) > 0 {
@@ -591,10 +638,16 @@ func main() {
 			continue
 		}
 		r := rs[0]
-		path, ok := minimise(bin, *prop, *tier, *features, r, sig, *noShrink)
+		binFor := func(x Result) string {
+			if x.Free && raceBin != "" {
+				return raceBin
+			}
+			return bin
+		}
+		path, ok := minimise(binFor(r), *prop, *tier, *features, r, sig, *noShrink)
 		// try other seeds of the same signature
 		for k := 1; !ok && k < len(rs) && k < 6; k++ {
-			path, ok = minimise(bin, *prop, *tier, *features, rs[k], sig, *noShrink)
+			path, ok = minimise(binFor(rs[k]), *prop, *tier, *features, rs[k], sig, *noShrink)
 		}
 		if !ok {
 			fmt.Printf("NON-REPRODUCIBLE candidate property=%s signature=%s seed=%d (not reported as violation)\n", *prop, sig, r.Seed)
@@ -605,6 +658,22 @@ func main() {
 	}
 	for _, kf := range known {
 		if kf.Property != *prop || !strings.HasPrefix(kf.Status, "open") {
+			continue
+		}
+		if kf.Free {
+			// only the free-running race phase can see it
+			if raceBin == "" {
+				continue
+			}
+			st := "stale"
+			if knownSeen[kf.Signature] > 0 {
+				st = "reproduces"
+			}
+			if st == "reproduces" {
+				fmt.Printf("KNOWN-FINDING: property=%s %s [%s] (reported by the race detector in %d free-running runs)\n", kf.Property, kf.Description, kf.Signature, knownSeen[kf.Signature])
+			} else {
+				fmt.Printf("STALE-FINDING: property=%s signature=%s was not reported by the race detector in this run (repaired, or not reached)\n", kf.Property, kf.Signature)
+			}
 			continue
 		}
 		// dedicated confirmation run per open known finding
@@ -631,13 +700,120 @@ func main() {
 		fmt.Printf("(%d further new violation signatures not minimised: %v)\n", len(newViol)-len(reports)-nonRepro, newViol)
 	}
 	wall := time.Since(start).Seconds()
-	writeEvidence(*prop, *tier, baseSeed, pc, tc, a, wall, len(reports), knownSeen, newViol)
+	writeEvidence(*prop, *tier, baseSeed, pc, tc, a, wall, len(reports), knownSeen, newViol, freeRuns)
 	fmt.Printf("runs=%d nontrivial=%d distinct=%d schedules=%d steps=%d crashes=%d wall=%.1fs exit=%d\n", a.runs, a.nontrivial, len(a.keys), len(a.scheds), a.steps, a.crashes, wall, exit)
 	if a.runs == 0 && exit == 0 {
 		fmt.Println("INFRA: no runs completed")
 		exit = 2
 	}
 	os.Exit(exit)
+}
+
+// raceReports splits the stderr of a free-running child into race reports keyed by the seed of
+// the run during which they were printed.
+func raceReports(stderr string) map[uint64]string {
+	out := map[uint64]string{}
+	var cur uint64
+	var have bool
+	var buf []string
+	inReport := false
+	flush := func() {
+		if len(buf) > 0 && have {
+			if _, dup := out[cur]; !dup {
+				out[cur] = strings.Join(buf, "\n")
+			}
+		}
+		buf = nil
+	}
+	for _, line := range strings.Split(stderr, "\n") {
+		if strings.HasPrefix(line, "SIMRUN ") {
+			if !inReport {
+				n, err := strconv.ParseUint(strings.TrimPrefix(line, "SIMRUN "), 10, 64)
+				if err == nil {
+					cur, have = n, true
+				}
+			}
+			continue
+		}
+		if strings.HasPrefix(line, "WARNING: DATA RACE") {
+			flush()
+			inReport = true
+		}
+		if inReport {
+			buf = append(buf, line)
+			if strings.HasPrefix(line, "==================") && len(buf) > 2 {
+				inReport = false
+				flush()
+			}
+		}
+	}
+	flush()
+	return out
+}
+
+// freePhase runs seeds in free-running mode with the race binary until the deadline.
+func freePhase(bin, prop, tier, features string, from uint64, deadline time.Time, workers int, a *agg) int {
+	saved := gorace
+	gorace = "halt_on_error=0 exitcode=0"
+	defer func() { gorace = saved }()
+	var mu sync.Mutex
+	next := from
+	total := 0
+	var wg sync.WaitGroup
+	for w := 0; w < workers; w++ {
+		wg.Add(1)
+		go func() {
+			defer wg.Done()
+			for time.Until(deadline) > 2*time.Second {
+				mu.Lock()
+				f := next
+				next += 200
+				mu.Unlock()
+				count := 200
+				for count > 0 && time.Until(deadline) > 2*time.Second {
+					args := []string{"-sim.prop=" + prop, "-sim.tier=" + tier, "-sim.free", fmt.Sprintf("-sim.from=%d", f), fmt.Sprintf("-sim.count=%d", count), "-sim.budget=" + time.Until(deadline).String()}
+					if features != "" {
+						args = append(args, "-sim.features="+features)
+					}
+					co := runChild(bin, args, time.Until(deadline)+60*time.Second)
+					mu.Lock()
+					total += len(co.results)
+					mu.Unlock()
+					for _, r := range co.results {
+						r.Free = true
+						a.add(r)
+					}
+					// race reports that did not stop the process
+					for seed, rep := range raceReports(co.stderr) {
+						sig, detail := crashSignature(prop, rep)
+						if strings.HasSuffix(sig, "/race:") {
+							a.mu.Lock()
+							a.anomalies = append(a.anomalies, "data race inside the harness: "+firstLines(detail, 25))
+							a.mu.Unlock()
+							continue
+						}
+						a.add(Result{Prop: prop, Seed: seed, Verdict: "violation", Free: true, Crash: detail, Violations: []Violation{{Signature: sig, Detail: detail}}})
+					}
+					if co.crash == nil || co.crash.Verdict != "crash" {
+						break
+					}
+					sig, detail := crashSignature(prop, co.stderr)
+					r := *co.crash
+					r.Prop, r.Verdict, r.Free = prop, "violation", true
+					r.Violations = []Violation{{Signature: sig, Detail: detail}}
+					a.mu.Lock()
+					a.crashes++
+					a.mu.Unlock()
+					a.add(r)
+					done := int(r.Seed-f) + 1
+					f += uint64(done)
+					count -= done
+				}
+			}
+		}()
+	}
+	wg.Wait()
+	return total
 }
 
 func sortedKeys[V any](m map[string]V) []string {
@@ -766,10 +942,8 @@ func doReplay(path string) int {
 	}
 	pc := props[rf.Property]
 	raceB := false
-	if rf.Tier == "thorough" && pc.Thorough.Race {
-		raceB = true
-	}
-	if strings.Contains(rf.Signature, "/race:") {
+	_ = pc
+	if strings.Contains(rf.Signature, "/race:") || rf.Free {
 		raceB = true
 	}
 	bin := build(raceB)
@@ -814,7 +988,7 @@ func minimise(bin, prop, tier, features string, r Result, sig string, noShrink b
 	test := func(tp []uint32) bool {
 		tries++
 		f, _ := os.CreateTemp(dir, "cand-*.json")
-		json.NewEncoder(f).Encode(replayFile{Property: prop, Seed: r.Seed, Tier: tier, Features: features, Finding: curFinding, Tape: tp})
+		json.NewEncoder(f).Encode(replayFile{Property: prop, Seed: r.Seed, Tier: tier, Features: features, Finding: curFinding, Free: r.Free, Tape: tp})
 		f.Close()
 		defer os.Remove(f.Name())
 		// a crash can come from real nondeterminism the change itself introduced (e.g. a select
@@ -822,6 +996,9 @@ func minimise(bin, prop, tier, features string, r Result, sig string, noShrink b
 		attempts := 1
 		if strings.Contains(sig, "/crash:") || strings.Contains(sig, "/race:") {
 			attempts = 4
+		}
+		if r.Free {
+			attempts = 8
 		}
 		for a := 0; a < attempts; a++ {
 			sigs, res, _, st := runReplay(bin, f.Name())
@@ -913,7 +1090,7 @@ func minimise(bin, prop, tier, features string, r Result, sig string, noShrink b
 		safe = safe[:90]
 	}
 	path := filepath.Join(root, "replays", fmt.Sprintf("%s-%d.json", safe, r.Seed))
-	rf := replayFile{Property: prop, Seed: r.Seed, Tier: tier, Features: features, Finding: curFinding, Signature: sig, Tape: cur}
+	rf := replayFile{Property: prop, Seed: r.Seed, Tier: tier, Features: features, Finding: curFinding, Free: r.Free, Signature: sig, Tape: cur}
 	// final confirmation in a fresh process, also fills the human readable part
 	if !test(cur) {
 		return "", false
@@ -936,7 +1113,7 @@ func minimise(bin, prop, tier, features string, r Result, sig string, noShrink b
 		sigs, _, _, st := runReplay(bin, path)
 		if st == "" && sigs[sig] {
 			confirmed = true
-		} else if !flaky && !strings.Contains(sig, "/crash:") {
+		} else if !flaky && !strings.Contains(sig, "/crash:") && !r.Free {
 			break
 		}
 	}
@@ -1029,7 +1206,7 @@ func clip(s string, n int) string {
 	return s
 }
 
-func writeEvidence(prop, tier string, seed uint64, pc propCfg, tc tierCfg, a *agg, wall float64, violations int, knownSeen map[string]int, newViol []string) {
+func writeEvidence(prop, tier string, seed uint64, pc propCfg, tc tierCfg, a *agg, wall float64, violations int, knownSeen map[string]int, newViol []string, freeRuns int) {
 	samples := []json.RawMessage{}
 	samples = append(samples, a.samples...)
 	if len(samples) == 0 {
@@ -1072,6 +1249,7 @@ func writeEvidence(prop, tier string, seed uint64, pc propCfg, tc tierCfg, a *ag
 			"new_violation_signatures": newViol,
 			"child_process_crashes":  a.crashes,
 			"race_detector":          tc.Race,
+			"free_running_race_detector_runs": freeRuns,
 			"coverage_points_distinct": len(a.cover),
 			"exhaustive":             false,
 		},
